@@ -195,7 +195,7 @@ func NewParams(schema *Schema, su SimpleURL, resType string) (*Params, error) {
 
 				sortingRules = append(sortingRules, rule)
 
-				break
+				continue
 			}
 
 			for _, attr := range typ.Attrs {
